@@ -20,7 +20,10 @@ type confResult struct {
 	Ran    []string `json:"ran"`
 	Failed []string `json:"failed"`
 	Note   string   `json:"note,omitempty"`
-	Output string   `json:"output,omitempty"`
+	// filled at evidence time from conformance/covers.json: assumed contract -> tests of this run that sample it
+	SampledBy  map[string][]string `json:"assumed_contracts_sampled_by,omitempty"`
+	NotSampled []string            `json:"assumed_contracts_not_sampled,omitempty"`
+	Output     string              `json:"output,omitempty"`
 }
 
 func runConformance(o *Options, prop string) *confResult {
@@ -63,6 +66,50 @@ func runConformance(o *Options, prop string) *confResult {
 		res.Note = "no conformance test is tagged with " + prop
 	}
 	return res
+}
+
+// relate records, for the assumed contracts a run used, which of the tests that ran sample them
+// (conformance/covers.json: test name suffix -> assumed contracts) and which are sampled by none.
+func (c *confResult) relate(o *Options, used []string) {
+	if c == nil {
+		return
+	}
+	b, err := os.ReadFile(filepath.Join(o.extspec, "..", "..", "conformance", "covers.json"))
+	if err != nil {
+		return
+	}
+	covers := map[string][]string{}
+	if json.Unmarshal(b, &covers) != nil {
+		return
+	}
+	c.SampledBy = map[string][]string{}
+	for _, t := range c.Ran {
+		failed := false
+		for _, f := range c.Failed {
+			failed = failed || f == t
+		}
+		if failed {
+			continue
+		}
+		suffix := t[strings.LastIndex(t, "_")+1:]
+		for _, k := range covers[suffix] {
+			c.SampledBy[k] = append(c.SampledBy[k], suffix)
+		}
+	}
+	for _, u := range used {
+		if len(c.SampledBy[u]) == 0 {
+			c.NotSampled = append(c.NotSampled, u)
+		}
+	}
+	for k := range c.SampledBy {
+		keep := false
+		for _, u := range used {
+			keep = keep || u == k
+		}
+		if !keep {
+			delete(c.SampledBy, k)
+		}
+	}
 }
 
 func (c *confResult) summary() string {
